@@ -54,6 +54,23 @@ TABLE = [
 ]
 
 
+_DEEP = None
+
+
+def deep_forms(key):
+    """definition-resolved forms recorded for an entry when it was confirmed (tables/guard_deep.json): they contain no local names, so a
+    renamed local is still recognised"""
+    global _DEEP
+    if _DEEP is None:
+        import json, os
+        p = os.path.join(os.path.dirname(os.path.dirname(os.path.dirname(os.path.abspath(__file__)))), "tables", "guard_deep.json")
+        try:
+            _DEEP = json.load(open(p))
+        except (OSError, ValueError):
+            _DEEP = {}
+    return set(_DEEP.get(key, []))
+
+
 def family(prog, prefix):
     cn = prefix.lstrip("<").split("::")[0]
     cr = prog.crates.get(cn)
@@ -170,6 +187,13 @@ def run(ctx, pid):
                     found = True
             elif text in have:
                 found = True
+            elif kind in ("compare", "reject") and deep_forms(key):
+                dk = (f.path, kind + "-deep")
+                if dk not in cache:
+                    cs_ = validation.checks_deep(ctx.prog, f) if kind == "reject" else validation.checks(f, errs=set(range(len(f.blocks))))
+                    cache[dk] = {c.get("deep") for c in cs_ if c.get("deep")}
+                if cache[dk] & deep_forms(key):
+                    found = True
             elif kind == "compare":
                 # the negated form is the same decision
                 neg = {"<": ">=", ">=": "<", ">": "<=", "<=": ">", "==": "!=", "!=": "=="}
